@@ -667,6 +667,8 @@ def gen_c16(rnd, n, thorough=False):
         cases.append({'id': 'c16-%d' % c, 'lines': lines, 'tags': {'layout': lname, 'src': srckind, 'dest': destkind, 'sub': hist}})
         if c == 1:
             cases.append(many_files_case(rnd, 'c16-%d-many' % c, ['sum', 'sumdiff', 'sumcopy']))
+    # every invocation starts at the command line: Parse of each subcommand (Model/Args.v)
+    cases += gen_args(rnd, max(n // 4, 10))
     return cases
 
 
@@ -692,4 +694,106 @@ def gen_c05_cli(rnd, n, thorough=False):
                 m, xff, lay_csv(layout)), "disk e/i1/sum.wsp"]
             observe_all(lines, 'e/i1/sum.wsp', layout)
         cases.append({'id': 'c05-cli-%d' % c, 'lines': lines, 'tags': {'layout': 'big', 'ops': {'cli_failing_report': 1}}})
+    return cases
+
+
+# ----------------------------------------------------------------------------- the command line
+ARG_VALUES = {
+    'src-base': ['/data', '/data/', 'http://h:8080', 'https://x/y', 'ftp://z', '', '.', 'http:/x'],
+    'src': ['a.wsp', '*.wsp', 'a[0-9].wsp', 'x\\y.wsp', 'dir/a?.wsp', '', 'sub/b.wsp'],
+    'dest-base': ['/d', '/dest/x', 'rel/dir', 'http://h', 'https://h/', '', 'httpx://h', 'HTTP://h'],
+    'dest': ['b.wsp', 'sum.wsp', 'sub/c.wsp', '', '*.wsp'],
+    'item': ['i*', 'a.b', '*', ''],
+    'agg-method': ['sum', 'average', 'last', 'max', 'min', 'first', 'mix', 'percentile', 'bogus', 'Sum', '', 'avg'],
+    'x-files-factor': ['0.5', '0', '1', '1.5', '-0.1', 'NaN', 'abc', '1e-3', '0x1p-1', '+0.25', '.5', '1_0', '', '-0', '1.0000001', '1.00000001', 'Inf', '1e-50'],
+    'retentions': ['1s:1m', '1m:1h,1h:1d', '1s:5s,5s:1m,1m:1h', '1s:1m,1m:30s', '', '1s', '60:1440', '1s:1m,', '2s:1m,3s:2m', '1m:1y'],
+    'from': ['2020-01-01T00:00:00Z', '1970-01-01T00:00:00Z', '2106-02-07T06:28:15Z', '2106-02-07T06:28:16Z', '2020-13-01T00:00:00Z', '2020-01-01', '',
+             '2020-01-01T0:00:00Z', '2020-01-01T00:00:00.000Z', '2020-01-01T00:00:00.5Z', '2021-06-30T12:00:00Z', '1969-12-31T23:59:59Z', '2020-02-30T00:00:00Z', '0'],
+    'archive': ['0', '1', '-1', '+2', '007', '08', '0x10', '0b11', '0o17', 'abc', '', '9223372036854775807', '9223372036854775808', '-9223372036854775808',
+                '-9223372036854775809', '1.5', '0X1f', '0B2', '00', '-', '+', '0x', '1e3', ' 1'],
+    'text-out': ['', '-', '/tmp/x.txt', 'out'],
+    'perm': ['644', '0644', '600', '8', '777777777777', '37777777777', '40000000000', '-1', '', '0o7', '+7'],
+    'max': ['0', '100', '-5', 'x', '1_000', '0x7f'],
+    'addr': [':8080', 'localhost:0', ''],
+    'base': ['.', '/srv', ''],
+}
+ARG_VALUES['until'] = ARG_VALUES['from']
+BOOL_FLAGS = {'copy-nan', 'header', 'sort', 'fill'}
+BOOL_VALUES = ['true', 'false', 'T', 'F', '0', '1', 'TRUE', 'True', 'FALSE', 'False', 't', 'f', 'yes', 'no', '', 'tRUE', '2']
+SUB_FLAGS = {
+    'copy': (['src-base', 'src', 'dest-base', 'agg-method', 'retentions'], ['dest', 'x-files-factor', 'from', 'until', 'archive', 'text-out', 'copy-nan']),
+    'diff': (['src-base', 'src', 'dest-base'], ['dest', 'archive', 'text-out', 'from', 'until']),
+    'generate': (['dest', 'agg-method', 'retentions'], ['perm', 'x-files-factor', 'max', 'fill', 'text-out']),
+    'server': ([], ['addr', 'base']),
+    'sum': (['item', 'src-base', 'src'], ['archive', 'text-out', 'header', 'from', 'until']),
+    'sum-copy': (['item', 'src-base', 'src', 'dest-base', 'dest', 'agg-method', 'retentions'], ['x-files-factor', 'from', 'until', 'archive', 'text-out']),
+    'sum-diff': (['item', 'src-base', 'src', 'dest-base', 'dest'], ['archive', 'text-out', 'from', 'until']),
+    'view': (['src-base', 'src'], ['from', 'until', 'archive', 'text-out', 'header']),
+    'view-raw': (['src-base', 'src'], ['from', 'until', 'archive', 'header', 'sort', 'text-out']),
+}
+ALL_FLAG_NAMES = sorted(ARG_VALUES) + sorted(BOOL_FLAGS)
+
+
+def gen_args(rnd, n):
+    """command lines: mostly complete and valid, with the window options in every combination, plus
+    every value syntax, the argument forms of the flag package, unknown and foreign flags"""
+    cases = []
+    def hexarg(a):
+        return a.encode('latin-1').hex() or '-'
+    for c in range(n):
+        lines = []
+        hist = {}
+        for _ in range(12):
+            sub = rnd.pick(list(SUB_FLAGS))
+            required, optional = SUB_FLAGS[sub]
+            items = []          # (name, value or None)
+            good_first = rnd.chance(0.85)           # values that parse, mostly
+            def pickval(name):
+                vals = BOOL_VALUES if name in BOOL_FLAGS else ARG_VALUES[name]
+                if name in BOOL_FLAGS:
+                    return rnd.pick(vals[:12]) if good_first else rnd.pick(vals)
+                return vals[rnd.randrange(min(len(vals), 3))] if good_first and rnd.chance(0.8) else rnd.pick(vals)
+            for name in required:
+                if rnd.chance(0.9):
+                    items.append((name, pickval(name)))
+            for name in optional:
+                if rnd.chance(0.4):
+                    items.append((name, None if name in BOOL_FLAGS and rnd.chance(0.5) else pickval(name)))
+            if rnd.chance(0.15):
+                nm = rnd.pick(ALL_FLAG_NAMES)       # a flag of some (possibly other) command, again
+                items.append((nm, None if nm in BOOL_FLAGS and rnd.chance(0.5) else pickval(nm)))
+            rnd.shuffle(items)
+            args = []
+            for name, val in items:
+                dash = rnd.pick(['-', '-', '-', '--'])
+                if val is None:
+                    args.append(dash + name)
+                elif name in BOOL_FLAGS:
+                    if rnd.chance(0.85):
+                        args.append('%s%s=%s' % (dash, name, val))
+                    else:
+                        args += [dash + name, val]          # the value is a positional argument: the flags end here
+                elif rnd.chance(0.5):
+                    args.append('%s%s=%s' % (dash, name, val))
+                else:
+                    args += [dash + name, val]
+            r = rnd.random() * 2
+            odd = None
+            if r < 0.04: odd = '-h'
+            elif r < 0.07: odd = '--help'
+            elif r < 0.09: odd = '-help=1'
+            elif r < 0.13: odd = '-bogus'
+            elif r < 0.15: odd = '--'
+            elif r < 0.17: odd = '-'
+            elif r < 0.19: odd = 'file.wsp'
+            elif r < 0.21: odd = '---x'
+            elif r < 0.23: odd = '-=x'
+            elif r < 0.25: odd = ''
+            elif r < 0.27: odd = '-src'          # may lack its argument when last
+            elif r < 0.29: odd = '--=' 
+            if odd is not None:
+                args.insert(rnd.randrange(len(args) + 1), odd)
+            hist[sub] = hist.get(sub, 0) + 1
+            lines.append('cliargs %s %s' % (sub, ' '.join(hexarg(a) for a in args)))
+        cases.append({'id': 'args-%d' % c, 'lines': lines, 'tags': {'layout': 'args', 'src': 'args', 'dest': 'args', 'sub': hist, 'kind': 'args', 'files': 0, 'window': 'args'}})
     return cases
